@@ -451,7 +451,7 @@ impl Mirror {
                     _ => return Exp::Skip,
                 })
             }
-            "call" => self.exec_call(c),
+            "call" | "bulk" => self.exec_call(c),
             _ => Exp::Skip,
         }
     }
@@ -518,6 +518,25 @@ impl Mirror {
                         }
                         Err(_) => Exp::Raise("ValueError"),
                     }
+                }
+                // (kind "bulk": n resting orders placed by one request, no observation in between - a book with tens of
+                // thousands of orders, whose snapshot passes several MiB, at the cost of one request)
+                "bulk_place" => {
+                    let nn = ovf!(u64_arg(&a[0]));
+                    let tick = ovf!(u32_arg(&a[1]));
+                    let centre = ovf!(u32_arg(&a[2]));
+                    let mut last = 0usize;
+                    for i in 0..nn {
+                        let (bid, vol, tr, price) = bulk_order(i, tick, centre);
+                        match b.create_order(side(bid), vol, tr, Some(price)) {
+                            Ok(id) => {
+                                b.place_order(id);
+                                last = id;
+                            }
+                            Err(_) => return Exp::Raise("ValueError"),
+                        }
+                    }
+                    Exp::Ret(json!(last))
                 }
                 "cancel_order" => {
                     let id = id_arg!(&a[0]);
@@ -659,6 +678,14 @@ fn first_diff(path: &str, a: &Value, b: &Value) -> Option<(String, String, Strin
             }
         }
     }
+}
+
+/// the i-th order of a bulk placement (the Python driver computes the same): non-crossing, 40 price levels per side
+pub fn bulk_order(i: u64, tick: u32, centre: u32) -> (bool, u32, u32, u32) {
+    let bid = i % 2 == 0;
+    let k = ((i / 2) % 40) as u32;
+    let price = if bid { (centre - 1 - k) * tick } else { (centre + 1 + k) * tick };
+    (bid, 1 + (i % 9) as u32, (i % 50) as u32, price)
 }
 
 fn is_layout_call(c: &PyCall) -> bool {
